@@ -20,6 +20,8 @@
 //! <tlk> = three 0/1 digits: trim_blocks, lstrip_blocks, keep_trailing_newline.
 //! <fam> = name:bs,be,vs,ve,cs,ce,ls,lc (hex of each delimiter; empty = not set).
 //! <segs> = `;`-joined: T<hex> | V<l><r> | B<l><r> | C<l><r> | R<l><r><l2><r2><hex>, markers in `_-+`,
+//!          tight forms v<l><r> (`{{v}}`) | b<l><r> (`{%if t%}`) | r<l><r><l2><r2><hex> (`{%raw%}…{%endraw%}`),
+//!          K<l><r><hex body> = comment with an arbitrary (possibly empty) body,
 //!          the k-th B tag is `if t` for even k and `endif` for odd k.  Empty sequence = `.`.
 //! <psegs> = `;`-joined: T<hex> | G<v|b|c><l><r><hex interior> | R<l><r><l2><r2><hex>.
 //!
@@ -151,6 +153,18 @@ fn item_src(f: &Fam, it: &str, nblock: &mut usize) -> String {
             format!("{}{} {} {}{}", f.bs(), mk(c[1]), w, mk(c[2]), f.be())
         }
         'C' => format!("{}{} c {}{}", f.cs(), mk(c[1]), mk(c[2]), f.ce()),
+        // tight forms and comments with an arbitrary body
+        'v' => format!("{}{}v{}{}", f.vs(), mk(c[1]), mk(c[2]), f.ve()),
+        'b' => {
+            let w = if *nblock % 2 == 0 { "if t" } else { "endif" };
+            *nblock += 1;
+            format!("{}{}{}{}{}", f.bs(), mk(c[1]), w, mk(c[2]), f.be())
+        }
+        'K' => format!("{}{}{}{}{}", f.cs(), mk(c[1]), unhexs(&it[3..]), mk(c[2]), f.ce()),
+        'r' => format!(
+            "{}{}raw{}{}{}{}{}endraw{}{}",
+            f.bs(), mk(c[1]), mk(c[2]), f.be(), unhexs(&it[5..]), f.bs(), mk(c[3]), mk(c[4]), f.be()
+        ),
         'R' => format!(
             "{}{} raw {}{}{}{}{} endraw {}{}",
             f.bs(), mk(c[1]), mk(c[2]), f.be(), unhexs(&it[5..]), f.bs(), mk(c[3]), mk(c[4]), f.be()
@@ -391,9 +405,9 @@ fn is_free(f: &Fam, segs: &str) -> bool {
         }
         regions.push((region_start, src.len()));
         let own = match c[0] {
-            'V' => f.vs(),
-            'B' | 'R' => f.bs(),
-            'C' => f.cs(),
+            'V' | 'v' => f.vs(),
+            'B' | 'R' | 'b' | 'r' => f.bs(),
+            'C' | 'K' => f.cs(),
             'G' => match c[1] {
                 'v' => f.vs(),
                 'b' => f.bs(),
@@ -403,13 +417,29 @@ fn is_free(f: &Fam, segs: &str) -> bool {
         };
         tags.push((src.len(), own.to_string()));
         src.push_str(&item_src(f, it, &mut nblock));
+        if c[0] == 'K' {
+            // the comment must read back as written
+            let body = unhexs(&it[3..]);
+            let br = format!("{}{}", body, mk(c[2]));
+            let probe = format!("{}{}", br, f.ce());
+            if probe.find(f.ce()) != Some(br.len()) {
+                return false;
+            }
+            let is_mark = |x: Option<char>| matches!(x, Some('-') | Some('+'));
+            if c[1] == '_' && is_mark(br.chars().next()) {
+                return false;
+            }
+            if c[2] == '_' && is_mark(body.chars().last()) {
+                return false;
+            }
+        }
         if c[0] == 'G' && c[1] == 'c' {
             let body = format!("{}{}", unhexs(&it[4..]), mk(c[3]));
             if body.contains(f.ce()) {
                 return false;
             }
         }
-        if c[0] == 'R' {
+        if c[0] == 'R' || c[0] == 'r' {
             let content = unhexs(&it[5..]);
             let probe = format!("{}{}", content, f.bs());
             if probe.find(f.bs()) != Some(content.len()) || content.contains("endraw") {
@@ -516,6 +546,39 @@ fn raw_items_tiny() -> Vec<String> {
     v
 }
 
+/// degenerate tag interiors: comments with an empty / blank / marker-like body, tight variable and
+/// block tags, raw blocks with empty content and a marker on every side (tight and padded)
+fn degenerate_items(all_raw: bool) -> Vec<String> {
+    let mut v = vec![];
+    for body in ["", " ", "-", "+", " - ", "--", " -", "- ", "c", "\n", " + ", "-+"] {
+        for l in MARKS {
+            for r in MARKS {
+                v.push(format!("K{}{}{}", l, r, hexs(body)));
+            }
+        }
+    }
+    for k in ['v', 'b'] {
+        for l in MARKS {
+            for r in MARKS {
+                v.push(format!("{}{}{}", k, l, r));
+            }
+        }
+    }
+    for l in MARKS {
+        for ri in MARKS {
+            for l2 in MARKS {
+                for r2 in MARKS {
+                    if all_raw || (l == ri && l2 == r2) {
+                        v.push(format!("r{}{}{}{}", l, ri, l2, r2));
+                        v.push(format!("R{}{}{}{}", l, ri, l2, r2));
+                    }
+                }
+            }
+        }
+    }
+    v
+}
+
 fn t_item(s: &str) -> String {
     format!("T{}", hexs(s))
 }
@@ -575,6 +638,23 @@ fn gen_seg(out: &mut impl Write, tier: &str, rng: &mut Rng, part: &str, chunk: u
             }
         }
     }
+    // degenerate tag interiors in every text context (also next to another tag)
+    let degen = degenerate_items(true);
+    {
+        let ctx: Vec<String> = ["", " ", "\n", " \n ", "x", "\r\n"].iter().map(|s| t_item(s)).collect();
+        for g in &degen {
+            for a in &ctx {
+                for b in &ctx {
+                    seqs.push(format!("{};{};{}", a, g, b));
+                }
+            }
+            for g2 in ["V__", "B__", "C__", "V-_", "B_-", "K-_", "K+_", "K__"] {
+                seqs.push(format!("{};{}", g, g2));
+                seqs.push(format!("{};{}", g2, g));
+                seqs.push(format!("T20;{};T0a;{};T20", g, g2));
+            }
+        }
+    }
     // raw: inner text alphabet x inner markers already in raws_full; outer texts x outer markers
     for a in &texts {
         for g in &raws_full {
@@ -627,6 +707,8 @@ fn gen_seg(out: &mut impl Write, tier: &str, rng: &mut Rng, part: &str, chunk: u
                 if rng.chance(2, 3) { rng.pick(&texts).clone() } else { rng.pick(&extra).clone() }
             } else if rng.chance(1, 5) {
                 rng.pick(&raws_full).clone()
+            } else if rng.chance(1, 4) {
+                rng.pick(&degen).clone()
             } else {
                 rng.pick(&tags).clone()
             };
@@ -661,6 +743,14 @@ fn gen_seg(out: &mut impl Write, tier: &str, rng: &mut Rng, part: &str, chunk: u
                 fseqs.push(format!("{};{}", a, b));
             }
         }
+        let fdegen = degenerate_items(false);
+        for g in &fdegen {
+            for a in ["", " ", "\n"] {
+                for b in ["", " ", "\n", "x"] {
+                    fseqs.push(format!("{};{};{}", t_item(a), g, t_item(b)));
+                }
+            }
+        }
         for s in &fseqs {
             // two settings exhaustively, the others sampled
             for tlk in ["000", "110"] {
@@ -680,6 +770,8 @@ fn gen_seg(out: &mut impl Write, tier: &str, rng: &mut Rng, part: &str, chunk: u
                     rng.pick(&fam_texts).clone()
                 } else if rng.chance(1, 6) {
                     rng.pick(&raws_small).clone()
+                } else if rng.chance(1, 4) {
+                    rng.pick(&fdegen).clone()
                 } else {
                     rng.pick(&tags).clone()
                 };
